@@ -5,6 +5,7 @@ Rules about it (C01-R8, C02-R1, C09-R8, C14-R7, C15-R5, C18-R1/R3) are stated on
 tree uses:
   option  `last_key: Option<Vec<u8>>`                      present = Some, bytes = the payload
   flag    `last_key: S` with S = { <Vec<u8>>, <bool> }      present = the bool, bytes = the Vec
+  sibling `last_key: Vec<u8>` + a new bool field of BlockWriter  present = the bool, bytes = the Vec
   range   `last_key: Option<Range<usize>>`                  present = Some, bytes = self.buffer[range]
 (the second keeps the allocation across blocks and still tells the empty key from "no key"; the third reads the key
 back from the block buffer, which is sound while the buffer is only appended to as long as a key is present)."""
@@ -15,6 +16,7 @@ class LastKeyRepr:
     def __init__(self, F):
         self.F = F
         self.mode = None
+        self.sibling = False
         self.flag = self.bytes = None
         bw = F.adts[A("bw_struct")]
         ty = None
@@ -28,6 +30,16 @@ class LastKeyRepr:
             self.mode = "range"
         elif ty.startswith("std::option::Option<"):
             self.mode = "option"
+        elif ty.startswith("std::vec::Vec<u8"):
+            # the bytes alone cannot tell "no key" from the empty key: presence must be a bool field of its own,
+            # the one field of BlockWriter the pinned tree does not have
+            from .normalize import pinned
+            known = {f[0] for f in pinned()["adts"].get(A("bw_struct"), [])}
+            news = [f["name"] for f in bw["variants"][0]["fields"] if f["name"] not in known and f["ty"] == "bool"]
+            if len(news) == 1:
+                self.mode = "flag"
+                self.sibling = True
+                self.flag, self.bytes = news[0], None
         elif ty in F.adts and F.adts[ty]["kind"] == "Struct":
             fs = F.adts[ty]["variants"][0]["fields"]
             bools = [f["name"] for f in fs if f["ty"] == "bool"]
@@ -40,6 +52,8 @@ class LastKeyRepr:
     def describe(self):
         if self.mode == "option":
             return "Option<Vec<u8>> (present = Some)"
+        if self.mode == "flag" and self.sibling:
+            return f"Vec<u8> with the sibling field {self.flag}: bool (present = {self.flag})"
         if self.mode == "flag":
             return f"{self.struct} {{ {self.bytes}: Vec<u8>, {self.flag}: bool }} (present = {self.flag})"
         if self.mode == "range":
@@ -56,7 +70,7 @@ class LastKeyRepr:
             p = unwrap_payload(s, "Some")
             return p is not None and is_self_field(p, "last_key")
         if self.mode == "flag":
-            return is_self_field(s, "last_key", self.bytes)
+            return is_self_field(s, "last_key") if self.sibling else is_self_field(s, "last_key", self.bytes)
         if self.mode == "range":
             # self.buffer[r] with r the payload of (a copy of) self.last_key — the whole range, nothing added to it
             if not (s.k == "call" and s.x["path"].endswith("::index") and len(s.a) == 2 and is_self_field(s.a[0], "buffer")):
@@ -90,7 +104,7 @@ class LastKeyRepr:
                 while d.k == "un" and d.x.get("op") == "Not":
                     neg = not neg
                     d = d.a[0]
-                if is_self_field(d, "last_key", self.flag):
+                if (is_self_field(d, self.flag) if self.sibling else is_self_field(d, "last_key", self.flag)):
                     zero = [tb for v, tb in t["arms"] if int(v) == 0]
                     if zero:
                         tt, ft = t["otherwise"], zero[0]
@@ -134,7 +148,7 @@ class LastKeyRepr:
             if sub is not None and last["name"] != sub:
                 continue
             tgt = b.expr_of_place(st["pl"], site)
-            if (sub is None and is_self_field(tgt, "last_key")) or (sub is not None and is_self_field(tgt, "last_key", sub)):
+            if (sub is None and is_self_field(tgt, "last_key")) or (sub is not None and (is_self_field(tgt, sub) if (self.sibling and last.get("adt") == A("bw_struct")) else is_self_field(tgt, "last_key", sub))):
                 yield site, st
 
     def absent_stores(self, b):
@@ -148,7 +162,7 @@ class LastKeyRepr:
             for site, st in self._field_stores(b, self.flag):
                 if const_val(b._expr_of_def((site, "assign", st["rv"]))) == 0:
                     out.append(site)
-            for site, st in self._field_stores(b):      # the whole struct replaced by a default / literal with flag false
+            for site, st in ([] if self.sibling else self._field_stores(b)):      # the whole struct replaced by a default / literal with flag false
                 e = b._expr_of_def((site, "assign", st["rv"]))
                 if e.k == "agg" and e.x.get("fields") and self.flag in e.x["fields"] and const_val(e.a[e.x["fields"].index(self.flag)]) == 0:
                     out.append(site)
